@@ -6,10 +6,17 @@ Decided from the source of mitmproxy/addons/clientplayback.py:
         before ``queue.task_done()`` / the next ``queue.get()``; the dequeued flow is published in ``self.inflight`` for the
         duration and cleared afterwards; ReplayHandler.replay ends with ``await self.done.wait()`` after starting the layer;
         handle_hook sets ``done`` exactly for HttpResponseHook / HttpErrorHook (every such path, no other hook), after the addon
-        hook ran, the flow was resumed and the server transports were cancelled and awaited.
+        hook ran, the flow was resumed (``await <flow>.wait_for_resume()`` precedes ``done.set()`` on every completing path whose
+        hook data is a flow, and is never awaited after it: a flow intercepted in its response / error hook is still live and
+        editable, its replay has not finished, so the next queued request must not be sent yet) and the server transports
+        were cancelled and awaited.
   R53.2 admission and cleanup: ClientPlayback.check (evaluated on the AST over 8 cells) refuses live, in-flight, intercepted,
         request-less, content-less, WebSocket and non-HTTP flows and admits the plain replayable flow; start_replay queues a flow
-        only on paths where check() returned nothing, after backup() and before nothing else touched it; stop_replay drains the
+        only on paths where check() returned nothing, after backup() and before nothing else touched it; the backup call, as
+        start_replay makes it (Flow.backup resolved along HTTPFlow's MRO and enumerated with the call's actual arguments bound),
+        stores a snapshot only on paths that established that no backup exists - check() does not refuse a flow that is already
+        queued, so a second submission must keep the first (pre-replay) snapshot, otherwise stop_replay's revert() "restores"
+        the prepared state (response None, is_replay set); stop_replay drains the
         queue completely (only QueueEmpty leaves the loop) and reverts every dequeued flow.
 NOT decided: asyncio scheduling, what happens inside the proxy core between Start and the final hook (C03), Flow.backup/revert
 themselves (C40).
@@ -32,6 +39,9 @@ from ..paths import index_of
 from ..paths import State
 from ..paths import UNKNOWN
 from ..selftest import Mutant
+from ..paths import traces_of
+from ._helpers_E import ESpec
+from ._helpers_E import fact
 from ._helpers_F import own_nodes
 from ._helpers_F import params_of
 from ._helpers_F import PureEval
@@ -44,8 +54,8 @@ REG = {
     "technique": "path enumeration of the playback loop body, of ReplayHandler.handle_hook / replay, of start_replay and stop_replay (exception edge "
     "for QueueEmpty); decision table of ClientPlayback.check evaluated on the AST",
     "claim": "with concurrency 1 a dequeued flow is awaited to completion before the queue is touched again; completion is signalled exactly by the "
-    "response / error hook after transports are closed; unreplayable flows are refused by check and never queued; queued flows are backed up "
-    "first and stop_replay reverts every one of them.",
+    "response / error hook after the flow was resumed and transports are closed; unreplayable flows are refused by check and never queued; queued flows are "
+    "backed up first by a call that never replaces an existing snapshot (Flow.backup enumerated with start_replay's arguments) and stop_replay reverts every one of them.",
     "note": "Scheduling orders are not decided. Loops unrolled once.",
 }
 
@@ -193,7 +203,17 @@ def check_handler(ctx):
     eng = StrictEngine(Ev(conds), lambda e: conds(e) is not None, "ReplayHandler.handle_hook")
     trs = eng.terminal(hh)
     ctx.paths += len(trs)
+    # same-class helpers that await wait_for_resume themselves count as the resume point (extracted-helper refactor)
+    rh = ctx.model.cls(F, "ReplayHandler")
+    resume_helpers = {f"self.{d.name}" for d in rh.body if isinstance(d, ast.AsyncFunctionDef) and d is not hh
+                      and any(isinstance(n, ast.Await) and isinstance(n.value, ast.Call) and norm(n.value.func).endswith(".wait_for_resume") for n in ast.walk(d))}
     bad = None
+    n_resume_checked = 0
+    trs = sorted(trs, key=lambda x: (repr(x[0]), x[1]))  # deterministic choice of the reported path
+    for tr, how, _ in trs:  # the more specific diagnosis first
+        sets = [i for i, e in enumerate(tr) if e[0] == "call" and e[1] == "self.done.set"]
+        if sets and any(e[0] == "await" and (e[1].endswith(".wait_for_resume") or e[1] in resume_helpers) for e in tr[sets[0]:]):
+            bad = bad or ("completion is signalled before the flow was resumed (wait_for_resume is awaited after done.set()): the next replay starts while this flow is still intercepted", tr)
     for tr, how, _ in trs:
         sets = [i for i, e in enumerate(tr) if e[0] == "call" and e[1] == "self.done.set"]
         if ("terminal", True) in tr and not sets and how == "return":
@@ -208,8 +228,14 @@ def check_handler(ctx):
                 w = index_of(tr, lambda e: e[0] == "await" and e[1] == "asyncio.wait")
                 if not (0 <= w < sets[0]):
                     bad = bad or ("completion is signalled before the server transports were closed and awaited", tr)
+            resumes = [i for i, e in enumerate(tr) if e[0] == "await" and (e[1].endswith(".wait_for_resume") or e[1] in resume_helpers)]
+            n_resume_checked += 1
+            if any(i > sets[0] for i in resumes):
+                bad = bad or ("completion is signalled before the flow was resumed (wait_for_resume is awaited after done.set()): the next replay starts while this flow is still intercepted", tr)
+            elif ("is-flow", False) not in tr[:sets[0]] and not resumes:
+                bad = bad or ("completion is signalled without waiting for the flow to be resumed: the next replay starts while this flow is still intercepted", tr)
     ctx.check(not bad, "R53.1", W, f"handle_hook: {bad[0] if bad else ''}", f"{bad[0] if bad else ''} (path {list(bad[1]) if bad else ''})",
-              desc=f"handle_hook: done.set() on every and only response / error hook path, after handle_lifecycle and transport shutdown ({len(trs)} paths)")
+              desc=f"handle_hook: done.set() on every and only response / error hook path, after handle_lifecycle, wait_for_resume and transport shutdown ({len(trs)} paths, {n_resume_checked} completing)")
     ctx.require(terminal_names is not None, "handle_hook: no isinstance(hook, ...) test found")
     ctx.check(terminal_names == ["HttpErrorHook", "HttpResponseHook"], "R53.1", W, f"completion hooks: {terminal_names}",
               "exactly the response and the error hook end a replay: an earlier hook lets the next replay start too soon, a missing one hangs the queue",
@@ -301,6 +327,46 @@ def check_start(ctx):
             bad = bad or ("the flow is modified / queued before backup(): stop_replay cannot restore its pre-replay state", tr)
     ctx.check(not bad, "R53.2", W, f"start_replay: {bad[0] if bad else ''}", f"{bad[0] if bad else ''} (path {list(bad[1]) if bad else ''})",
               desc=f"start_replay: queue only when check() is clear, backup() before the first modification ({len(puts)} queuing paths)")
+    check_backup_keeps(ctx, fn, loop, aliases)
+
+
+def check_backup_keeps(ctx, fn, loop, aliases):
+    """The snapshot start_replay takes must never replace an existing one (see module docstring)."""
+    W = (F, "ClientPlayback.start_replay", fn)
+    calls = [n for n in ast.walk(loop) if isinstance(n, ast.Call) and isinstance(n.func, ast.Attribute) and n.func.attr == "backup" and norm(n.func.value) in aliases]
+    if not calls:
+        return  # reported by check_start (no backup before queuing)
+    hit = ctx.model.method("mitmproxy/http.py", "HTTPFlow", "backup")
+    ctx.require(hit is not None, "HTTPFlow.backup does not resolve along the MRO")
+    bmod, bfn = hit
+    ctx.functions.add(f"{bmod.rel}::{getattr(bfn, '_qual', 'Flow.backup')}")
+    a = bfn.args
+    ctx.require(not a.vararg and not a.kwarg and not a.posonlyargs, "Flow.backup: *args/**kwargs signature not modelled")
+    names = [x.arg for x in a.args][1:]
+    defaults = dict(zip([x.arg for x in a.args][len(a.args) - len(a.defaults):], a.defaults))
+    defaults.update({x.arg: d for x, d in zip(a.kwonlyargs, a.kw_defaults) if d is not None})
+    bad = None
+    stores = 0
+    for c in calls:
+        ctx.require(not any(isinstance(x, ast.Starred) for x in c.args) and all(k.arg for k in c.keywords), f"start_replay: {norm(c)} unpacks arguments (not modelled)")
+        actual = dict(zip(names, c.args))
+        actual.update({k.arg: k.value for k in c.keywords})
+        bind = {}
+        for pn in names + [x.arg for x in a.kwonlyargs]:
+            v = actual.get(pn, defaults.get(pn))
+            bind[pn] = C(v.value) if isinstance(v, ast.Constant) else UNKNOWN
+        res, eng = traces_of(bfn, ESpec(keep=lambda e: e[0] == "assign" and e[1] == "self._backup"), bindings=bind)
+        ctx.paths += len(res)
+        for t, how, _ in res:
+            if any(e[0] == "assign" for e in t):
+                stores += 1
+                if fact([e for e in t if e[0] == "cond"], "self._backup") is not False:
+                    bad = bad or (norm(c), [e for e in t])
+    ctx.require(bad or stores, "Flow.backup never stores a snapshot (shape not recognised)")
+    ctx.check(not bad, "R53.2", W, f"start_replay: {bad[0] if bad else ''} may replace an existing backup",
+              f"as called here, Flow.backup stores a new snapshot on a path that did not establish that no backup exists (path {bad[1] if bad else ''}): a flow submitted again while it is "
+              "still queued gets its pre-replay snapshot overwritten by the prepared state (no response, is_replay set), so replay.client.stop cannot restore it",
+              desc=f"start_replay: {norm(calls[0])} keeps an existing snapshot (Flow.backup stores only when no backup exists; {stores} storing path(s))")
 
 
 def check_stop(ctx):
@@ -352,7 +418,7 @@ def check(ctx):
     ctx.assume("asyncio.Queue is FIFO; awaiting a coroutine runs it to completion before the next statement")
     if not ctx.findings:
         ctx.expect_instances("R53.1", 6)
-        ctx.expect_instances("R53.2", 4)
+        ctx.expect_instances("R53.2", 5)
 
 
 MUTANTS = [
@@ -367,6 +433,21 @@ MUTANTS = [
     Mutant("done-before-transports-closed", F, "        if isinstance(hook, (layers.http.HttpResponseHook, layers.http.HttpErrorHook)):\n            if self.transports:",
            "        if isinstance(hook, (layers.http.HttpResponseHook, layers.http.HttpErrorHook)):\n            self.done.set()\n            if self.transports:", "R53.1"),
     Mutant("done-for-every-hook", F, "            # signal completion\n            self.done.set()", "        # signal completion\n        self.done.set()", "R53.1"),
+    # seed C53a: completion signalled (and transports closed) before the flow is resumed
+    Mutant("done-before-resume", F,
+           "        if isinstance(data, flow.Flow):\n            await data.wait_for_resume()\n        if isinstance(hook, (layers.http.HttpResponseHook, layers.http.HttpErrorHook)):\n",
+           "        if isinstance(hook, (layers.http.HttpResponseHook, layers.http.HttpErrorHook)):\n            self.done.set()\n        if isinstance(data, flow.Flow):\n            await data.wait_for_resume()\n"
+           "        if isinstance(hook, (layers.http.HttpResponseHook, layers.http.HttpErrorHook)):\n", "R53.1"),
+    Mutant("never-waits-for-resume", F, "        if isinstance(data, flow.Flow):\n            await data.wait_for_resume()\n", "", "R53.1"),
+    Mutant("resume-awaited-only-for-intermediate-hooks", F, "        if isinstance(data, flow.Flow):\n            await data.wait_for_resume()\n        if isinstance(hook, (layers.http.HttpResponseHook, layers.http.HttpErrorHook)):\n",
+           "        if isinstance(hook, (layers.http.HttpResponseHook, layers.http.HttpErrorHook)):\n            pass\n        elif isinstance(data, flow.Flow):\n            await data.wait_for_resume()\n"
+           "        if isinstance(hook, (layers.http.HttpResponseHook, layers.http.HttpErrorHook)):\n", "R53.1"),
+    # seed C53b: the pre-replay snapshot is replaced when a queued flow is submitted again
+    Mutant("replay-backup-forced", "mitmproxy/flow.py", "    def backup(self, force=False):\n        \"\"\"\n        Save a backup of this flow, which can be restored by calling `Flow.revert()`.\n        \"\"\"\n        if not self._backup:\n",
+           "    def backup(self, force=True):\n        \"\"\"\n        Save a backup of this flow, which can be restored by calling `Flow.revert()`.\n        \"\"\"\n        if force or not self._backup:\n", "R53.2"),
+    Mutant("replay-backup-overwrites", "mitmproxy/flow.py", "        if not self._backup:\n            self._backup = self.get_state()\n", "        self._backup = self.get_state()\n", "R53.2"),
+    Mutant("replay-backup-refreshed-when-present", "mitmproxy/flow.py", "        if not self._backup:\n            self._backup = self.get_state()\n",
+           "        if self._backup is not None:\n            self._backup = self.get_state()\n        else:\n            self._backup = self.get_state()\n", "R53.2"),
     Mutant("live-flows-admitted", F, "        if f.live or f == self.inflight:", "        if f == self.inflight:", "R53.2"),
     Mutant("websocket-flows-admitted", F, "            if f.websocket is not None:\n                return \"Can't replay WebSocket flows.\"\n", "", "R53.2"),
     Mutant("non-http-flows-admitted", F, "        else:\n            return \"Can only replay HTTP flows.\"\n", "", "R53.2"),
